@@ -454,6 +454,12 @@ func (fx *fexec) execInstr(in ssa.Instruction, st *State) {
 		fx.env[x] = fx.unop(x, st)
 	case *ssa.Convert:
 		fx.env[x] = fx.convert(x, st)
+	case *ssa.MultiConvert:
+		// conversion from/to a type parameter: a plain conversion once the type
+		// parameter is substituted (the engine executes generic bodies per instance)
+		v := fx.val(x.X)
+		v.Ty = vc.resolve(v.Ty)
+		fx.env[x] = vc.convertVal(st, v, vc.resolve(x.Type()), x.Name())
 	case *ssa.ChangeType:
 		v := fx.val(x.X)
 		nt := vc.resolve(x.Type())
@@ -866,6 +872,24 @@ func (vc *VC) intBinop(fx *fexec, st *State, op token.Token, a, b Val, rt types.
 				return mk(vc.define(name, app(SInt, "mod", a.T, bigLit(m))))
 			}
 		}
+	}
+	// bitwise operators over mathematical integers: exact round trip through the
+	// two's-complement bit-vector of the operand width (int2bv is "mod 2^w")
+	if bop, ok := map[token.Token]string{token.AND: "bvand", token.OR: "bvor", token.XOR: "bvxor", token.AND_NOT: "bvandnot"}[op]; ok && a.T.Sort == SInt && b.T.Sort == SInt {
+		srt := bvSort(ii.w)
+		ab := Term{fmt.Sprintf("((_ int2bv %d) %s)", ii.w, a.T.S), srt}
+		bb := Term{fmt.Sprintf("((_ int2bv %d) %s)", ii.w, b.T.S), srt}
+		var r Term
+		if bop == "bvandnot" {
+			r = app(srt, "bvand", ab, app(srt, "bvnot", bb))
+		} else {
+			r = app(srt, bop, ab, bb)
+		}
+		nat := Term{"(bv2nat " + r.S + ")", SInt}
+		if ii.signed {
+			return mk(vc.define(name, ite(app(SBool, "bvslt", r, bvLit(big.NewInt(0), ii.w)), sub(nat, bigLit(pow2(ii.w))), nat)))
+		}
+		return mk(vc.define(name, nat))
 	}
 	panic(engErr(fmt.Sprintf("integer op %s needs 'arith bv' at %s", op, pos)))
 }
